@@ -131,7 +131,7 @@ def jobs(tier, seed):
             out.append(_j('stud-opening-rule', kind='bring-in', cls=cls_name))
     for j in out:
         j.setdefault('state_cap', 400000 if th else 60000)
-        j.setdefault('time_cap', 700 if th else 60)
+        j.setdefault('time_cap', 1800 if th else 400)
     return out
 
 
